@@ -396,6 +396,8 @@ class WebVTTWriter(BaseWriter):
             return []
 
         current_layout = None
+        # text without positioning of its own is a layout group like any other
+        has_text = False
 
         # A list with layout groups. Since WebVTT only support positioning
         # for different cues, each layout group has to be represented in a
@@ -406,7 +408,7 @@ class WebVTTWriter(BaseWriter):
         s = ""
         for i, node in enumerate(nodes):
             if node.type_ == CaptionNode.TEXT:
-                if s and current_layout and node.layout_info != current_layout:
+                if has_text and node.layout_info != current_layout:
                     # If the positioning changes from one text node to
                     # another, a new WebVTT cue has to be created.
                     layout_groups.append((s, current_layout))
@@ -415,6 +417,7 @@ class WebVTTWriter(BaseWriter):
                 # finally encoded as WebVTT.
                 s += self._encode_illegal_characters(node.content) or "&nbsp;"
                 current_layout = node.layout_info
+                has_text = True
             elif node.type_ == CaptionNode.STYLE:
                 resulting_style = self._calculate_resulting_style(
                     node.content, caption_set
